@@ -74,8 +74,14 @@ pub struct Scenario {
 pub enum Src {
     /// the address of a remote candidate the agent already knows
     Known,
-    /// a socket the agent has never heard of (new one per message)
+    /// a socket the agent has never heard of (new one per message); on 127.0.0.1 = same IP as the known
+    /// remote candidate, other port
     Fresh,
+    /// another loopback IP (127.0.0.2 / 127.0.0.3), bound to the SAME port number as the known (in Connected:
+    /// the selected) remote candidate
+    SamePortOtherIp,
+    /// another loopback IP, fresh port
+    OtherIpFreshPort,
 }
 
 #[derive(Clone, Copy, Debug, PartialEq, Eq, Serialize, Deserialize)]
@@ -203,6 +209,8 @@ pub enum From {
     Anchor,
     Fresh,
     Known,
+    /// another loopback IP with the port number of the known / selected remote candidate
+    SamePortOtherIp,
 }
 
 #[derive(Clone, Debug, PartialEq, Eq, Serialize, Deserialize)]
@@ -237,9 +245,31 @@ pub enum Msg {
     Forge(Forge),
 }
 
+/// Configuration of the agent under test beyond mode / role / socket kind: every `RtcConfiguration` knob the ICE
+/// request / response / nomination / packet paths read.
+#[derive(Clone, Copy, Debug, Default, PartialEq, Eq, Serialize, Deserialize)]
+pub struct Cfg {
+    /// `enable_latching` (meant for RTP/SRTP SIP endpoints, must not open anything in WebRTC mode)
+    pub latching: bool,
+    /// `enable_ice_lite`
+    pub ice_lite: bool,
+    /// `prefer_srflx_over_natted_host`
+    pub prefer_srflx: bool,
+    /// `buffer_drop_strategy = DropOldest` and `rtp_buffer_capacity = 2`
+    pub tiny_buffer: bool,
+    /// `probation_max_packets = Some(3)`
+    pub probation: bool,
+    /// `external_ip = 203.0.113.7`
+    pub external_ip: bool,
+    /// `stun_timeout = 2 s`, `ice_disconnect_threshold = 60 s`, `ice_connection_timeout = 90 s`
+    pub timeouts: bool,
+}
+
 #[derive(Clone, Debug, PartialEq, Eq, Serialize, Deserialize)]
 pub struct Case {
     pub sc: Scenario,
+    #[serde(default)]
+    pub cfg: Cfg,
     pub msgs: Vec<Msg>,
 }
 
@@ -620,7 +650,10 @@ fn forge_bytes(f: &Forge, anchor: &[u8], c: &Creds, agent_role: Role) -> Vec<u8>
 struct Snap {
     state: String,
     cands: Vec<(String, String, String)>,
+    /// (local socket address, remote socket address, remote candidate type) of `get_selected_pair()`
     pair: Option<(String, String)>,
+    /// the same as published on the selected-pair watch
+    pair_watch: Option<(String, String)>,
     nomination: Option<bool>,
     socket: Option<String>,
 }
@@ -635,7 +668,12 @@ fn snap(t: &IceTransport) -> Snap {
     Snap {
         state: format!("{:?}", t.state()),
         cands,
-        pair: t.get_selected_pair().map(|p| (p.local.address.to_string(), p.remote.address.to_string())),
+        pair: t.get_selected_pair().map(|p| {
+            (format!("{}/{}", p.local.address, p.local.transport), format!("{}/{:?}/{}", p.remote.address, p.remote.typ, p.remote.transport))
+        }),
+        pair_watch: t.subscribe_selected_pair().borrow().as_ref().map(|p| {
+            (format!("{}/{}", p.local.address, p.local.transport), format!("{}/{:?}/{}", p.remote.address, p.remote.typ, p.remote.transport))
+        }),
         nomination: *t.subscribe_nomination_complete().borrow(),
         socket: t.subscribe_selected_socket().borrow().as_ref().map(|s| s.diag()),
     }
@@ -665,7 +703,7 @@ fn effects(a: &Snap, b: &Snap) -> [Vec<String>; 3] {
     if !before.is_empty() {
         g0.push("candidate-removed".to_string());
     }
-    if a.pair != b.pair {
+    if a.pair != b.pair || a.pair_watch != b.pair_watch {
         g1.push("pair-selected".to_string());
     }
     if a.state != b.state {
@@ -682,7 +720,7 @@ fn effects(a: &Snap, b: &Snap) -> [Vec<String>; 3] {
             g1.push(format!("nomination:{:?}->{:?}", a.nomination, b.nomination));
         }
     }
-    if a.socket != b.socket && a.pair == b.pair {
+    if a.socket != b.socket && a.pair == b.pair && a.pair_watch == b.pair_watch {
         g2.push("selected-socket-changed".to_string());
     }
     [g0, g1, g2]
@@ -799,7 +837,11 @@ struct Live {
     known_tcp: Option<TcpStream>,
     keep: Vec<Keep>,
     fast_timeout: bool,
-    pending: bool,
+    /// stun_timeout shortened by the generated configuration
+    short_stun: bool,
+    grave_secs: u64,
+    /// sockets bound on other loopback IPs with the known candidate's port: (ip, tcp, index in `keep`)
+    alt: Vec<(u8, bool, usize)>,
     /// last authenticated check of the genuine harness peer
     genuine: Option<AnchorRef>,
     /// last authenticated request of this case, whoever sent it
@@ -818,6 +860,18 @@ enum Via {
     Known,
     Fresh,
     Keep(usize),
+    /// 127.0.0.<ip>, port of the known remote candidate (`same_port`) or a fresh one
+    AltIp { ip: u8, same_port: bool },
+}
+
+fn via_of(src: Src, junk: u32) -> Via {
+    let ip = if junk & 0x100 == 0 { 2 } else { 3 };
+    match src {
+        Src::Known => Via::Known,
+        Src::Fresh => Via::Fresh,
+        Src::SamePortOtherIp => Via::AltIp { ip, same_port: true },
+        Src::OtherIpFreshPort => Via::AltIp { ip, same_port: false },
+    }
 }
 
 impl From {
@@ -825,6 +879,7 @@ impl From {
         match self {
             From::Fresh => Via::Fresh,
             From::Known => Via::Known,
+            From::SamePortOtherIp => Via::AltIp { ip: 2, same_port: true },
             From::Anchor => match anchor.src {
                 None => Via::Known,
                 Some(i) => Via::Keep(i),
@@ -840,7 +895,7 @@ impl Drop for Live {
         // nomination_timeout. Keep every harness socket it may still be talking to bound until
         // then, otherwise the freed port can be handed to ANOTHER case's agent, which would see
         // the stale checks as requests from a stranger (cross-talk between cases).
-        let grave = Duration::from_secs(if self.pending { 31 } else { 11 });
+        let grave = Duration::from_secs(self.grave_secs);
         let keep = std::mem::take(&mut self.keep);
         let k = self.known.sock.clone();
         let kt = self.known_tcp.take();
@@ -854,13 +909,31 @@ impl Drop for Live {
     }
 }
 
-fn config_for(kind: Kind, env: &Env, fast_timeout: bool, pending: bool) -> RtcConfiguration {
+fn config_for(kind: Kind, env: &Env, fast_timeout: bool, pending: bool, k: &Cfg) -> RtcConfiguration {
     let mut cfg = RtcConfiguration::default();
+    cfg.enable_latching = k.latching;
+    cfg.enable_ice_lite = k.ice_lite;
+    cfg.prefer_srflx_over_natted_host = k.prefer_srflx;
+    if k.tiny_buffer {
+        cfg.buffer_drop_strategy = rustrtc::config::BufferDropStrategy::DropOldest;
+        cfg.rtp_buffer_capacity = 2;
+    }
+    if k.probation {
+        cfg.probation_max_packets = Some(3);
+    }
+    if k.external_ip {
+        cfg.external_ip = Some("203.0.113.7".to_string());
+    }
+    if k.timeouts {
+        cfg.stun_timeout = Duration::from_secs(2);
+        cfg.ice_disconnect_threshold = Duration::from_secs(60);
+        cfg.ice_connection_timeout = Duration::from_secs(90);
+    }
     cfg.bind_ip = Some("127.0.0.1".to_string());
     cfg.disable_ipv6 = true;
     if pending {
         // must not run into the nomination timeout while it is observed
-        cfg.nomination_timeout = Duration::from_secs(30);
+        cfg.nomination_timeout = Duration::from_secs(14);
     }
     if fast_timeout {
         cfg.stun_timeout = Duration::from_millis(300);
@@ -930,7 +1003,7 @@ async fn build_live(case: &Case, env: &Env) -> Result<Live, String> {
     let sc = case.sc;
     let wants_completed = case.msgs.iter().any(|m| matches!(m, Msg::Resp(r) if r.tx == RespTx::Completed));
     let fast_timeout = sc.state == St::Checking && wants_completed;
-    let t = gathered(config_for(sc.kind, env, fast_timeout, sc.state == St::Pending), sc.role).await?;
+    let t = gathered(config_for(sc.kind, env, fast_timeout, sc.state == St::Pending, &case.cfg), sc.role).await?;
     let lp = t.local_parameters();
     let creds = Creds {
         l_ufrag: lp.username_fragment.clone(),
@@ -962,14 +1035,22 @@ async fn build_live(case: &Case, env: &Env) -> Result<Live, String> {
         known_tcp: None,
         keep: Vec::new(),
         fast_timeout,
-        pending: sc.state == St::Pending,
+        short_stun: case.cfg.timeouts,
+        // a stopped agent can still retransmit: checks (Checking: stun_timeout 5 s) or the nominating check of a
+        // controlling agent held before nomination (14 s); otherwise nothing is outstanding
+        grave_secs: match (sc.state, sc.role) {
+            (St::Pending, Role::Controlling) => 15,
+            (St::Checking, _) => 11,
+            _ => 6,
+        },
+        alt: Vec::new(),
         genuine: None,
         last_auth: None,
     };
     let uses_known = case.msgs.iter().any(|m| match m {
-        Msg::Req(r) => r.src == Src::Known,
-        Msg::Resp(r) => r.src == Src::Known,
-        Msg::Forge(f) => f.from != From::Fresh || matches!(&f.anchor, Anchor::Own(r) if r.src == Src::Known),
+        Msg::Req(r) => r.src != Src::Fresh,
+        Msg::Resp(r) => r.src != Src::Fresh,
+        Msg::Forge(f) => f.from != From::Fresh || matches!(&f.anchor, Anchor::Own(r) if r.src != Src::Fresh),
     });
     let remote = IceParameters::new(R_UFRAG, R_PWD);
     if is_tcp(sc.kind) && uses_known {
@@ -1142,6 +1223,31 @@ impl Live {
         let Some(target) = self.tcp_target else { return (false, false, None) };
         let mut framed = (bytes.len() as u16).to_be_bytes().to_vec();
         framed.extend_from_slice(bytes);
+        let via = match via {
+            Via::AltIp { ip, same_port } => {
+                let cached = self.alt.iter().find(|e| e.0 == ip && e.1 && same_port).map(|e| e.2);
+                match cached {
+                    Some(i) => Via::Keep(i),
+                    None => {
+                        let port = if same_port { self.known.addr.port() } else { 0 };
+                        let Ok(s) = TcpSocket::new_v4() else { return (false, false, None) };
+                        if s.bind(SocketAddr::from(([127, 0, 0, ip], port))).is_err() {
+                            return (false, false, None);
+                        }
+                        let Ok(Ok(st)) = tokio::time::timeout(Duration::from_secs(2), s.connect(target)).await else {
+                            return (false, false, None);
+                        };
+                        let _ = st.set_nodelay(true);
+                        self.keep.push(Keep::Tcp(st));
+                        if same_port {
+                            self.alt.push((ip, true, self.keep.len() - 1));
+                        }
+                        Via::Keep(self.keep.len() - 1)
+                    }
+                }
+            }
+            v => v,
+        };
         if let Via::Keep(i) = via {
             if let Some(Keep::Tcp(st)) = self.keep.get_mut(i) {
                 if st.write_all(&framed).await.is_err() {
@@ -1171,7 +1277,7 @@ impl Live {
                 let answered = expect_reply && read_frame(st, Duration::from_millis(400)).await.is_some();
                 (true, answered, None)
             }
-            Via::Fresh | Via::Keep(_) => {
+            Via::Fresh | Via::Keep(_) | Via::AltIp { .. } => {
                 let Ok(Ok(mut st)) = tokio::time::timeout(Duration::from_secs(2), TcpStream::connect(target)).await else {
                     return (false, false, None);
                 };
@@ -1203,6 +1309,26 @@ impl Live {
             }
             false
         }
+        let via = match via {
+            Via::AltIp { ip, same_port } => {
+                let cached = self.alt.iter().find(|e| e.0 == ip && !e.1 && same_port).map(|e| e.2);
+                match cached {
+                    Some(i) => Via::Keep(i),
+                    None => {
+                        let port = if same_port { self.known.addr.port() } else { 0 };
+                        let Ok(s) = UdpSocket::bind(SocketAddr::from(([127, 0, 0, ip], port))).await else {
+                            return (false, false, None);
+                        };
+                        self.keep.push(Keep::Udp(s));
+                        if same_port {
+                            self.alt.push((ip, false, self.keep.len() - 1));
+                        }
+                        Via::Keep(self.keep.len() - 1)
+                    }
+                }
+            }
+            v => v,
+        };
         if let Via::Keep(i) = via {
             if let Some(Keep::Udp(s)) = self.keep.get(i) {
                 if s.send_to(bytes, self.udp_target).await.is_err() {
@@ -1228,7 +1354,7 @@ impl Live {
                 }
                 (true, answered, None)
             }
-            Via::Fresh | Via::Keep(_) => {
+            Via::Fresh | Via::Keep(_) | Via::AltIp { .. } => {
                 let Ok(s) = UdpSocket::bind("127.0.0.1:0").await else { return (false, false, None) };
                 if s.send_to(bytes, self.udp_target).await.is_err() {
                     return (false, false, None);
@@ -1250,7 +1376,7 @@ impl Live {
         match m {
             Step::Req(r) => {
                 let bytes = build_request(r, &self.creds, self.role);
-                let via = if r.src == Src::Known { Via::Known } else { Via::Fresh };
+                let via = via_of(r.src, r.fill.junk);
                 let (delivered, answered, idx) = self.send_request(via, &bytes).await;
                 let v = verdict(&bytes, &self.creds);
                 if v == Auth::Valid && delivered {
@@ -1283,7 +1409,7 @@ impl Live {
                 let (txid, authorised, note) = self.pick_txid(r);
                 let mapped = self.known.seen.lock().agent_src.unwrap_or(self.udp_target);
                 let bytes = build_response(&txid, r.error, mapped, r.mi, r.fp, &self.creds);
-                let via = if r.src == Src::Known { Via::Known } else { Via::Fresh };
+                let via = via_of(r.src, r.fill.junk);
                 // TCP kinds also own a UDP socket: half of the responses go there
                 let (delivered, _, _) = if is_tcp(self.kind) && r.fill.junk & 0x10 != 0 {
                     self.tcp_send(via, &bytes, false).await
@@ -1324,7 +1450,13 @@ impl Live {
                 }
             }
             RespTx::Outstanding => {
-                let limit = if self.fast_timeout { Duration::from_millis(250) } else { Duration::from_millis(4500) };
+                let limit = if self.fast_timeout {
+                    Duration::from_millis(250)
+                } else if self.short_stun {
+                    Duration::from_millis(1500)
+                } else {
+                    Duration::from_millis(4500)
+                };
                 let open: Vec<[u8; 12]> = g.requests.iter().filter(|e| !e.2 && e.1.elapsed() < limit).map(|e| e.0).collect();
                 if open.is_empty() {
                     (rnd, false, Some("resp:outstanding-unavailable"))
@@ -1364,6 +1496,28 @@ async fn run_case(case: Case, env: Arc<Env>, known: Arc<HashSet<String>>) -> (Ca
     rec.label(format!("kind={:?}", sc.kind));
     rec.label(format!("role={:?}", sc.role));
     rec.label(format!("state={:?}", sc.state));
+    rec.label(if case.cfg.latching { "cfg:latching=on" } else { "cfg:latching=off" });
+    for (on, name) in [
+        (case.cfg.ice_lite, "cfg:ice-lite"),
+        (case.cfg.prefer_srflx, "cfg:prefer-srflx"),
+        (case.cfg.tiny_buffer, "cfg:tiny-buffer"),
+        (case.cfg.probation, "cfg:probation"),
+        (case.cfg.external_ip, "cfg:external-ip"),
+        (case.cfg.timeouts, "cfg:timeouts"),
+    ] {
+        if on {
+            rec.label(name);
+        }
+    }
+    if case.cfg.latching
+        && case.msgs.iter().any(|m| match m {
+            Msg::Req(r) => r.src == Src::SamePortOtherIp,
+            Msg::Resp(r) => r.src == Src::SamePortOtherIp,
+            Msg::Forge(f) => f.from == From::SamePortOtherIp,
+        })
+    {
+        rec.label("latching-on+same-port-other-ip");
+    }
     let mut live = match build_live(&case, &env).await {
         Ok(l) => l,
         Err(e) => {
@@ -1501,7 +1655,7 @@ fn scenario_strategy() -> impl Strategy<Value = Scenario> {
 }
 
 fn src_strategy() -> impl Strategy<Value = Src> {
-    prop_oneof![Just(Src::Fresh), Just(Src::Known)]
+    prop_oneof![3 => Just(Src::Fresh), 3 => Just(Src::Known), 2 => Just(Src::SamePortOtherIp), 1 => Just(Src::OtherIpFreshPort)]
 }
 
 fn fp_strategy() -> impl Strategy<Value = Fp> {
@@ -1570,7 +1724,7 @@ fn forge_strategy() -> impl Strategy<Value = Forge> {
     (
         prop_oneof![5 => auth_req_strategy().prop_map(Anchor::Own), 3 => Just(Anchor::Genuine), 2 => Just(Anchor::Last)],
         prop::bool::weighted(0.7),
-        prop_oneof![3 => Just(From::Fresh), 3 => Just(From::Anchor), 2 => Just(From::Known)],
+        prop_oneof![3 => Just(From::Fresh), 3 => Just(From::Anchor), 2 => Just(From::Known), 2 => Just(From::SamePortOtherIp)],
         prop_oneof![
             4 => Just(Content::Forged), 2 => Just(Content::MiStripped), 2 => Just(Content::MiCorrupted),
             2 => Just(Content::MiTruncated), 2 => Just(Content::PlusUc), 1 => Just(Content::Exact)
@@ -1602,9 +1756,45 @@ fn forge_strategy() -> impl Strategy<Value = Forge> {
         })
 }
 
+fn cfg_strategy() -> impl Strategy<Value = Cfg> {
+    (
+        any::<bool>(),
+        prop::bool::weighted(0.25),
+        prop::bool::weighted(0.25),
+        prop::bool::weighted(0.25),
+        prop::bool::weighted(0.25),
+        prop::bool::weighted(0.25),
+        prop::bool::weighted(0.25),
+    )
+        .prop_map(|(latching, ice_lite, prefer_srflx, tiny_buffer, probation, external_ip, timeouts)| Cfg {
+            latching,
+            ice_lite,
+            prefer_srflx,
+            tiny_buffer,
+            probation,
+            external_ip,
+            timeouts,
+        })
+}
+
+/// Enumerated sub-checks cross `enable_latching` fully; the other knobs rotate over the cells (each on in a third).
+fn cfg_rot(latching: bool, k: usize) -> Cfg {
+    let h = (k as u64).wrapping_mul(0x9E37_79B9_7F4A_7C15) >> 20;
+    Cfg {
+        latching,
+        ice_lite: h % 3 == 0,
+        prefer_srflx: (h / 3) % 3 == 0,
+        tiny_buffer: (h / 9) % 3 == 0,
+        probation: (h / 27) % 3 == 0,
+        external_ip: (h / 81) % 3 == 0,
+        timeouts: (h / 243) % 3 == 0,
+    }
+}
+
 fn seq_strategy() -> impl Strategy<Value = Case> {
     (
         scenario_strategy(),
+        cfg_strategy(),
         prop::collection::vec(
             prop_oneof![
                 4 => req_strategy().prop_map(Msg::Req),
@@ -1614,38 +1804,43 @@ fn seq_strategy() -> impl Strategy<Value = Case> {
             1..=10,
         ),
     )
-        .prop_map(|(sc, msgs)| Case { sc, msgs })
+        .prop_map(|(sc, cfg, msgs)| Case { sc, cfg, msgs })
 }
 
 const CROSS_USERS: [User; 4] = [User::Absent, User::Wrong, User::HalfRight, User::Right];
-const CROSS_MIS: [Mi; 5] = [Mi::Absent, Mi::Random, Mi::WrongKey, Mi::RemotePwd, Mi::Correct];
+const CROSS_MIS: [Mi; 4] = [Mi::Absent, Mi::WrongKey, Mi::RemotePwd, Mi::Correct];
+const CROSS_SRCS: [Src; 3] = [Src::Known, Src::Fresh, Src::SamePortOtherIp];
 
-/// scenario x source x USERNAME x MESSAGE-INTEGRITY x USE-CANDIDATE, one message per fresh agent.
-/// PRIORITY/ICE-CONTROL* presence and FINGERPRINT validity rotate over the cells (and with `round`).
+/// scenario x enable_latching x source x USERNAME x MESSAGE-INTEGRITY x USE-CANDIDATE, one message per fresh agent.
+/// PRIORITY/ICE-CONTROL* presence, FINGERPRINT validity and the other configuration knobs rotate over the cells
+/// (and with `round`).
 fn cross_requests(fills: &[Fill], round: usize) -> Vec<Case> {
     let mut out = Vec::new();
     for (si, sc) in scenarios().into_iter().enumerate() {
         let mut j = 0usize;
-        for src in [Src::Known, Src::Fresh] {
-            for user in CROSS_USERS {
-                for mi in CROSS_MIS {
-                    for uc in [false, true] {
-                        let p = j + si + round;
-                        let q = (j >> 1) + (si >> 1) + (round >> 1);
-                        let fill = fills[out.len() % fills.len()].clone();
-                        out.push(Case {
-                            sc,
-                            msgs: vec![Msg::Req(Req {
-                                src,
-                                user,
-                                mi,
-                                uc,
-                                ice: p & 1 == 0,
-                                fp: if q & 1 == 0 { Fp::Valid } else { Fp::Invalid },
-                                fill,
-                            })],
-                        });
-                        j += 1;
+        for latching in [false, true] {
+            for src in CROSS_SRCS {
+                for user in CROSS_USERS {
+                    for mi in CROSS_MIS {
+                        for uc in [false, true] {
+                            let p = j + si + round;
+                            let q = (j >> 1) + (si >> 1) + (round >> 1);
+                            let fill = fills[out.len() % fills.len()].clone();
+                            out.push(Case {
+                                sc,
+                                cfg: cfg_rot(latching, out.len() + round * 7919),
+                                msgs: vec![Msg::Req(Req {
+                                    src,
+                                    user,
+                                    mi,
+                                    uc,
+                                    ice: p & 1 == 0,
+                                    fp: if q & 1 == 0 { Fp::Valid } else { Fp::Invalid },
+                                    fill,
+                                })],
+                            });
+                            j += 1;
+                        }
                     }
                 }
             }
@@ -1654,61 +1849,69 @@ fn cross_requests(fills: &[Fill], round: usize) -> Vec<Case> {
     out
 }
 
-/// scenario x anchor {own authenticated check from a fresh / the known address, the genuine peer's check}
-/// x forged content x what is re-used {transaction id, source address, both, id from the known address};
-/// the forged request always asks for nomination.
+/// scenario x enable_latching x anchor {own authenticated check from a fresh / the known address, the genuine
+/// peer's check} x forged content x what is re-used {transaction id, source address, both, id from another IP with
+/// the known candidate's port}; the forged request always asks for nomination.
 fn history_requests(fills: &[Fill], round: usize) -> Vec<Case> {
     let mut out = Vec::new();
     for (si, sc) in scenarios().into_iter().enumerate() {
+        let reuse = vec![(true, From::Fresh), (false, From::Anchor), (true, From::Anchor), (true, From::SamePortOtherIp)];
         let mut anchors: Vec<(Option<Src>, Vec<(bool, From)>)> = vec![
-            (Some(Src::Fresh), vec![(true, From::Fresh), (false, From::Anchor), (true, From::Anchor), (true, From::Known)]),
-            (Some(Src::Known), vec![(true, From::Fresh), (false, From::Anchor), (true, From::Anchor)]),
+            (Some(Src::Fresh), {
+                let mut r = reuse.clone();
+                r.push((true, From::Known));
+                r
+            }),
+            (Some(Src::Known), reuse.clone()),
         ];
         if matches!(sc.state, St::Connected | St::Pending) {
-            anchors.push((None, vec![(true, From::Fresh), (false, From::Anchor), (true, From::Anchor)]));
+            anchors.push((None, reuse.clone()));
         }
         let mut j = 0usize;
-        for (a_src, reuses) in anchors {
-            for (content, user, mi) in [
-                (Content::Forged, User::Absent, Mi::Absent),
-                (Content::Forged, User::Right, Mi::WrongKey),
-                (Content::MiStripped, User::Right, Mi::Absent),
-                (Content::MiCorrupted, User::Right, Mi::Random),
-                (Content::PlusUc, User::Right, Mi::Random),
-                (Content::MiTruncated, User::Right, Mi::Random),
-                (Content::Forged, User::Right, Mi::Shaped { len: 1, correct: true, std_len: true }),
-            ] {
-                for (same_txid, from) in reuses.iter().copied() {
-                    let p = j + si + round;
-                    let fill = fills[out.len() % fills.len()].clone();
-                    let anchor = match a_src {
-                        Some(src) => Anchor::Own(Req {
-                            src,
-                            user: User::Right,
-                            mi: Mi::Correct,
-                            uc: false,
-                            ice: true,
-                            fp: Fp::Valid,
-                            fill: fills[(out.len() + 7) % fills.len()].clone(),
-                        }),
-                        None => Anchor::Genuine,
-                    };
-                    out.push(Case {
-                        sc,
-                        msgs: vec![Msg::Forge(Forge {
-                            anchor,
-                            same_txid,
-                            from,
-                            content,
-                            user,
-                            mi,
-                            uc: true,
-                            ice: p & 1 == 0,
-                            fp: if (p >> 1) & 1 == 0 { Fp::Valid } else { Fp::Invalid },
-                            fill,
-                        })],
-                    });
-                    j += 1;
+        for latching in [false, true] {
+            for (a_src, reuses) in anchors.iter() {
+                for (content, user, mi) in [
+                    (Content::Forged, User::Absent, Mi::Absent),
+                    (Content::Forged, User::Right, Mi::WrongKey),
+                    (Content::MiStripped, User::Right, Mi::Absent),
+                    (Content::MiCorrupted, User::Right, Mi::Random),
+                    (Content::PlusUc, User::Right, Mi::Random),
+                    (Content::MiTruncated, User::Right, Mi::Random),
+                    (Content::Forged, User::Right, Mi::Shaped { len: 1, correct: true, std_len: true }),
+                ] {
+                    for (same_txid, from) in reuses.iter().copied() {
+                        let p = j + si + round;
+                        let fill = fills[out.len() % fills.len()].clone();
+                        let anchor = match a_src {
+                            Some(src) => Anchor::Own(Req {
+                                src: *src,
+                                user: User::Right,
+                                mi: Mi::Correct,
+                                uc: false,
+                                ice: true,
+                                fp: Fp::Valid,
+                                fill: fills[(out.len() + 7) % fills.len()].clone(),
+                            }),
+                            None => Anchor::Genuine,
+                        };
+                        out.push(Case {
+                            sc,
+                            cfg: cfg_rot(latching, out.len() + round * 7919),
+                            msgs: vec![Msg::Forge(Forge {
+                                anchor,
+                                same_txid,
+                                from,
+                                content,
+                                user,
+                                mi,
+                                uc: true,
+                                ice: p & 1 == 0,
+                                fp: if (p >> 1) & 1 == 0 { Fp::Valid } else { Fp::Invalid },
+                                fill,
+                            })],
+                        });
+                        j += 1;
+                    }
                 }
             }
         }
@@ -1743,8 +1946,9 @@ fn cross_mi_shapes(fills: &[Fill], round: usize) -> Vec<Case> {
             let fill = fills[out.len() % fills.len()].clone();
             out.push(Case {
                 sc,
+                cfg: cfg_rot((p >> 1) & 1 == 1, out.len() + round * 7919),
                 msgs: vec![Msg::Req(Req {
-                    src: if p & 1 == 0 { Src::Fresh } else { Src::Known },
+                    src: [Src::Fresh, Src::Known, Src::SamePortOtherIp, Src::OtherIpFreshPort][p % 4],
                     user: if (p / 2) % 4 == 3 { User::HalfRight } else { User::Right },
                     mi,
                     uc: true,
@@ -1761,12 +1965,16 @@ fn cross_mi_shapes(fills: &[Fill], round: usize) -> Vec<Case> {
 fn cross_responses(fills: &[Fill]) -> Vec<Case> {
     let mut out = Vec::new();
     for sc in scenarios() {
-        for src in [Src::Known, Src::Fresh] {
+        for src in [Src::Known, Src::Fresh, Src::SamePortOtherIp] {
             for error in [None, Some(401u16)] {
                 for tx in [RespTx::Random, RespTx::Completed] {
                     for mi in [false, true] {
                         let fill = fills[out.len() % fills.len()].clone();
-                        out.push(Case { sc, msgs: vec![Msg::Resp(Resp { src, error, tx, mi, fp: Fp::Valid, fill })] });
+                        out.push(Case {
+                            sc,
+                            cfg: cfg_rot(out.len() % 2 == 1, out.len()),
+                            msgs: vec![Msg::Resp(Resp { src, error, tx, mi, fp: Fp::Valid, fill })],
+                        });
                     }
                 }
             }
@@ -1777,6 +1985,7 @@ fn cross_responses(fills: &[Fill]) -> Vec<Case> {
                 let fill = fills[out.len() % fills.len()].clone();
                 out.push(Case {
                     sc,
+                    cfg: Cfg::default(),
                     msgs: vec![Msg::Resp(Resp { src: Src::Known, error, tx: RespTx::Outstanding, mi: true, fp: Fp::Valid, fill })],
                 });
             }
@@ -2036,8 +2245,8 @@ async fn free_tcp_port() -> u16 {
 async fn anchors() -> Result<(Env, Vec<IceTransport>), String> {
     for _ in 0..8 {
         let env = Env { mux_port: free_udp_port().await, tcp_shared_port: free_tcp_port().await };
-        let a = gathered(config_for(Kind::UdpMux, &env, false, false), Role::Controlled).await?;
-        let b = gathered(config_for(Kind::TcpShared, &env, false, false), Role::Controlled).await?;
+        let a = gathered(config_for(Kind::UdpMux, &env, false, false, &Cfg::default()), Role::Controlled).await?;
+        let b = gathered(config_for(Kind::TcpShared, &env, false, false, &Cfg::default()), Role::Controlled).await?;
         let ok_a = a.local_candidates().iter().any(|c| c.transport == "udp" && c.address.port() == env.mux_port);
         let ok_b = b.local_candidates().iter().any(|c| c.transport == "tcp" && c.address.port() == env.tcp_shared_port);
         if ok_a && ok_b {
@@ -2051,11 +2260,12 @@ async fn anchors() -> Result<(Env, Vec<IceTransport>), String> {
 
 pub fn run(ctx: &mut Ctx) {
     ctx.level = "exploration";
-    ctx.rule = "live IceTransport (WebRTC mode, loopback) per case in scenario = socket kind {per-agent UDP, shared UDP mux port, per-agent passive TCP listener, shared passive TCP listener} x role {controlling, controlled} x state {New (gathered; a trickled remote candidate only when a message uses the known source), Checking (remote parameters + one silent remote candidate with an outstanding check), Connected (genuine harness peer: authenticated checks, nomination complete), Pending (same peer, connected but nomination withheld)}; cross-requests: scenario x source {known remote candidate address, fresh socket} x USERNAME {absent, wrong, local-half-only, right} x MESSAGE-INTEGRITY {absent, random, wrong key, remote password, correct} x USE-CANDIDATE, PRIORITY/ICE-CONTROL* presence and FINGERPRINT validity rotating over cells, one message per fresh agent; cross-responses: scenario x source x {success, error 401} x transaction id {random, replay of a completed (answered or timed-out) transaction} x MI, plus responses to outstanding transactions as positive control; cross-mi-shapes: scenario x MESSAGE-INTEGRITY shape with the right USERNAME and USE-CANDIDATE {attribute of 0/1/2/4/19 bytes = prefix of the correct HMAC (HMAC input with the regular or the really encoded length) or garbage, 21-24 bytes starting with the correct HMAC, wrong+correct and correct+wrong MESSAGE-INTEGRITY pairs, MESSAGE-INTEGRITY before USERNAME, correct MESSAGE-INTEGRITY followed by PRIORITY/ICE-CONTROL*/USE-CANDIDATE}; history-requests: scenario x anchor {own authenticated plain check from a fresh / from the known address, the genuine peer's last check} x forged nominating request {no credentials, right USERNAME + wrong-key HMAC, anchor bytes with MESSAGE-INTEGRITY stripped, with one HMAC bit flipped, with only USE-CANDIDATE added} x re-use {anchor's transaction id from a fresh socket, anchor's socket with a new id, both, anchor's id from the known address}; sequences: proptest sequences of 1-10 requests / responses / history-dependent forgeries (anchor = own authenticated request sent first, the genuine peer's check, or the last authenticated request of the case; also exact retransmissions as positive control) with random field contents (also swapped username, tampered HMAC, absent FINGERPRINT, error codes). Non-trivial = at least one request lacking valid credentials or one response without outstanding transaction was delivered to the live agent; distinct by case digest (variant x scenario x field contents).".into();
+    ctx.rule = "live IceTransport (WebRTC mode, loopback) per case in scenario = socket kind {per-agent UDP, shared UDP mux port, per-agent passive TCP listener, shared passive TCP listener} x role {controlling, controlled} x state {New (gathered; a trickled remote candidate only when a message uses the known source), Checking (remote parameters + one silent remote candidate with an outstanding check), Connected (genuine harness peer: authenticated checks, nomination complete), Pending (same peer, connected but nomination withheld)}; the agent's configuration is generated too (enable_latching fully crossed in cross-requests and history-requests, alternating in the other grids, random in sequences; enable_ice_lite, prefer_srflx_over_natted_host, buffer strategy/capacity, probation_max_packets, external_ip, stun/disconnect/connection timeouts rotating, each on in a third of the cells); cross-requests: scenario x enable_latching x source {known remote candidate address, fresh socket on the same IP, another loopback IP bound to the SAME port as the known / selected remote candidate} x USERNAME {absent, wrong, local-half-only, right} x MESSAGE-INTEGRITY {absent, wrong key, remote password, correct} x USE-CANDIDATE, PRIORITY/ICE-CONTROL* presence and FINGERPRINT validity rotating over cells, one message per fresh agent; cross-responses: scenario x source x {success, error 401} x transaction id {random, replay of a completed (answered or timed-out) transaction} x MI, plus responses to outstanding transactions as positive control; cross-mi-shapes: scenario x MESSAGE-INTEGRITY shape with the right USERNAME and USE-CANDIDATE {attribute of 0/1/2/4/19 bytes = prefix of the correct HMAC (HMAC input with the regular or the really encoded length) or garbage, 21-24 bytes starting with the correct HMAC, wrong+correct and correct+wrong MESSAGE-INTEGRITY pairs, MESSAGE-INTEGRITY before USERNAME, correct MESSAGE-INTEGRITY followed by PRIORITY/ICE-CONTROL*/USE-CANDIDATE}; history-requests: scenario x anchor {own authenticated plain check from a fresh / from the known address, the genuine peer's last check} x forged nominating request {no credentials, right USERNAME + wrong-key HMAC, anchor bytes with MESSAGE-INTEGRITY stripped, with one HMAC bit flipped, with only USE-CANDIDATE added} x re-use {anchor's transaction id from a fresh socket, anchor's socket with a new id, both, anchor's id from another IP with the known candidate's port, anchor's id from the known address}; sequences: proptest sequences of 1-10 requests / responses / history-dependent forgeries (anchor = own authenticated request sent first, the genuine peer's check, or the last authenticated request of the case; also exact retransmissions as positive control) with random field contents (also swapped username, tampered HMAC, absent FINGERPRINT, error codes). Non-trivial = at least one request lacking valid credentials or one response without outstanding transaction was delivered to the live agent; distinct by case digest (variant x scenario x field contents).".into();
     ctx.assumptions = vec![
         "layouts RFC 5389 leaves to the receiver are not judged (either outcome): the canonical one plus trailing attributes after a verifying first MESSAGE-INTEGRITY (incl. a second, wrong MESSAGE-INTEGRITY) counts as authenticated; MESSAGE-INTEGRITY before USERNAME and a wrong MESSAGE-INTEGRITY in front of a verifying one are accepted either way; any MESSAGE-INTEGRITY attribute that is not exactly 20 bytes is unauthenticated".into(),
         "credentials are judged per message on its own bytes (independent reader + HMAC): valid iff USERNAME starts with '<local ufrag>:' and MESSAGE-INTEGRITY is the RFC 5389 HMAC-SHA1 under the local password over exactly these bytes - whatever was authenticated earlier from that address or under that transaction id; 'local:<other>' with a correct HMAC is treated as authenticated (RFC 8445 7.3 checks only the first half), so it is not judged".into(),
-        "observation = state(), remote_candidates(), get_selected_pair(), nomination watch, selected-socket watch, sampled before and >= 150 ms after each message (and >= 40 ms after the agent's answer when one arrives)".into(),
+        "the agent binds an IPv4 loopback socket (not dual-stack), so IPv4-mapped IPv6 sources cannot reach it and are not generated; other-IP sources are 127.0.0.2 / 127.0.0.3".into(),
+        "observation = state(), remote_candidates(), get_selected_pair() and the selected-pair watch as full (local socket address/transport, remote socket address/type/transport), nomination watch, selected-socket watch, sampled before and >= 150 ms after each message (and >= 40 ms after the agent's answer when one arrives)".into(),
         "answering an unauthenticated request is allowed and not checked; FINGERPRINT validity is varied but the statement attaches no consequence to it".into(),
         "a response matching an outstanding transaction id is honoured whatever its source address or integrity (the statement only requires a matching transaction)".into(),
     ];
@@ -2084,7 +2294,7 @@ pub fn run(ctx: &mut Ctx) {
     };
     let env = Arc::new(env);
     let check = checker(env.clone(), known.clone());
-    let conc = 144usize;
+    let conc = 256usize;
 
     let rounds = ctx.scale(1usize, 20usize);
     let fills: Vec<Fill> = ctx.draw("cross-fill", 4096, &fill_strategy()).into_iter().map(|t| {
